@@ -126,7 +126,7 @@ def run(ctx, explain=False):
                   res.stdout.count("Invariant RoundTrip is violated"), "settings")
     finally:
         tlc.cleanup(d)
-    nperm = ctx.pick(1, 20)
+    nperm = ctx.pick(1, 120)
     recipes = [{"row": r, "seed": ctx.seed * 7919 + i, "nperm": nperm} for i, r in enumerate(rows)]
     traces = pool_map(safe_drive(drive), recipes)
     for t in traces:
